@@ -1212,10 +1212,12 @@ Theorem C02_load_chain_frame :
            d_max_id := xref_max_id (fold_left xref_merge (map (fun s => fst (snd s)) rest) x0) |} (x_type x0).
 Proof. exact LoadsLoopProofs.load_ext_frame_chain. Qed.
 
-(* the statement for the WHOLE style space of ref_write_multi stays a Definition.  Proved below: C02_loads_multi_table (every
-   part a table) and C02_loads_multi_mixed (every part a table or a cross-reference stream with any filter chain, mixed chains;
-   objects AND trailer).  Missing (notes/C02.md, Round 5): object streams across parts, and a stream whose Length is a reference
-   (to an object of any part) *)
+(* the statement for the WHOLE style space of ref_write_multi stays a Definition -- and WITHOUT A DOMAIN IT IS FALSE
+   (C02_loads_multi_partial_needs_domain below: the reference writer accepts a superseded definition of a MEMBER's number that no
+   later part overrides).  Proved below: C02_loads_multi_table (every part a table), C02_loads_multi_mixed (every part a table or a
+   cross-reference stream with any filter chain, mixed chains, Length references across parts; objects AND trailer) and
+   C02_loads_multi_objstm_partial (that, or one part with ANY object streams).  Missing (notes/C02.md, Round 6): object streams
+   in a file of two or more parts *)
 Definition C02_loads_multi_partial : Prop :=
   forall (st : fstyle) (parts : list mpart) (a : adoc) (file : bytes),
     ref_write_multi st parts a = Some file ->
@@ -1445,6 +1447,59 @@ Proof.
   change (with_part ex_fstyle_os ex_part_os true) with ex_fstyle_os. exact (proj1 C02_example_full).
 Qed.
 
+(* FILES OF SEVERAL PARTS WITH OBJECT STREAMS, the writer half of the hypothesis of C02_merge_object_streams ("every member is one
+   the MERGED table places in its container"): the table write_parts carries along ([known] = the merge of the sections written so
+   far, newest first; LoadsMultiObjStm.final_known is its value after the last part) gives every member of an object stream the
+   type-2 entry its own part wrote -- no later part overrides it: a later part lists a number only when it holds a top-level
+   object, a cross-reference stream, a member of one of its own containers (the containers of different parts are different and
+   compressed_nums is duplicate free) or a superseded definition, and a superseded definition of a member's number would need a
+   LATER part that "defines" the number, which [part_dom] excludes (a part's mp_nums names no member of an object stream; neither
+   does a cross-reference stream's number).  [tops] are the top-level objects (none has a member's number). *)
+Theorem C02_multi_members_named :
+  forall (st : fstyle) (a : adoc) (tops : list LoadsTableProofs.top),
+    NoDup (compressed_nums st) ->
+    (forall t, In t tops -> ~ In (fst (fst (fst t))) (compressed_nums st)) ->
+    forall parts pos prev known maxnum r,
+      write_parts st a tops parts pos prev known maxnum = Some r ->
+      Forall (LoadsMultiObjStm.part_dom st) parts -> NoDup (flat_map mp_nums parts) ->
+      forall p n c k, In p parts -> find_comp (part_containers st p) n = Some (c, k) ->
+        lookup_entry (LoadsMultiObjStm.final_known st a tops parts pos prev known maxnum) n = Some (SComp c k).
+Proof. exact LoadsMultiObjStm.known_names_members. Qed.
+
+(* [part_dom] is NEEDED, and C02_loads_multi_partial as it stands (no domain) is FALSE: write_parts accepts a superseded
+   definition (mp_old) when a later part's mp_nums merely NAMES the number, and does not ask that the later part holds a
+   definition.  Three parts: part 1 holds the object stream 20 with member 7 (a dictionary); part 2 holds a "superseded" top-level
+   definition "7 0 obj 1" and lists it; part 3 names 7 in mp_nums (nothing to write: 7 is a member) and holds only its
+   cross-reference stream.  ref_write_multi writes the file, the newest entry for 7 is part 2's, and the loader (model and, by
+   correspondence, lopdf) correctly delivers the integer 1 -- the file does NOT define [content a].  A defect of the reference
+   writer's style space (Spec/RefWriter.v), not of lopdf; props/c02.py never draws it (a part's numbers are drawn from the
+   top-level objects).  The domain of the theorem to come must contain [part_dom]. *)
+Definition ex_xs_22 : xsstyle :=
+  {| xs_id := 22; xs_w := (1%nat, 2%nat, 1%nat); xs_secs := []; xs_omit_index := false;
+     xs_filter := SfNone; xs_array := false; xs_istyle := default_istyle |}.
+Definition ex_parts_bad : list mpart :=
+  [ {| mp_nums := [3; 9; 20]; mp_old := []; mp_relist := []; mp_order := [20; 3]; mp_xref := XStream ex_xs_os;
+       mp_sx := (ECRLF, 1%nat, 2%nat, ECR, Some ELF) |};
+    {| mp_nums := []; mp_old := [(7, OInt 1)]; mp_relist := []; mp_order := []; mp_xref := XTable ex_tstyle;
+       mp_sx := (ELF, 0%nat, 0%nat, ELF, Some ELF) |};
+    {| mp_nums := [7]; mp_old := []; mp_relist := []; mp_order := []; mp_xref := XStream ex_xs_22;
+       mp_sx := (ELF, 0%nat, 0%nat, ELF, Some ELF) |} ].
+Theorem C02_loads_multi_partial_needs_domain :
+  ~ C02_loads_multi_partial /\ ~ Forall (LoadsMultiObjStm.part_dom ex_fstyle_os) ex_parts_bad.
+Proof.
+  split.
+  - intro H.
+    set (f := match ref_write_multi ex_fstyle_os ex_parts_bad ex_adoc_os with Some f => f | None => [] end).
+    assert (Ef : ref_write_multi ex_fstyle_os ex_parts_bad ex_adoc_os = Some f) by (vm_compute; reflexivity).
+    assert (K : match LoaderExt.load_ext LoadsFilterProofs.decompress_ref LoadsFilterProofs.can_ref f with
+                | LOk d _ => lookup (d_objects d) (7, 0) = Some (OInt 1) | _ => False end) by (vm_compute; reflexivity).
+    assert (Hc : lookup (content ex_adoc_os) (7, 0) = Some (ODict [(bs "K", OArr [ORef 1 0; OStr (bs "a") false])])) by (vm_compute; reflexivity).
+    destruct (H _ _ _ _ Ef) as [d [t [Hl [_ Ho]]]]. rewrite Hl in K.
+    destruct (Ho _ _ Hc) as [o' [H1 H2]]. rewrite K in H1. inversion H1; subst. inversion H2.
+  - intro H. inversion H as [|? ? _ H2]; subst. inversion H2 as [|? ? _ H3]; subst. inversion H3 as [|? ? [Hd _] _]; subst.
+    apply (Hd 7); [left; reflexivity|vm_compute; tauto].
+Qed.
+
 (* ---------- non-vacuity ---------- *)
 Definition ex_secs : xsections := [(0, [SFree 0 65535; SInUse 17 0]); (5, [SComp 3 1; SInUse 70000 2])].
 Definition ex_dict : dict :=
@@ -1574,6 +1629,8 @@ Print Assumptions C02_example_full.
 Print Assumptions C02_multi_one_part_is_single.
 Print Assumptions C02_loads_multi_objstm_partial.
 Print Assumptions C02_example_loads_multi_objstm.
+Print Assumptions C02_multi_members_named.
+Print Assumptions C02_loads_multi_partial_needs_domain.
 Print Assumptions C02_example_loads_table.
 Print Assumptions C02_example_object.
 Print Assumptions C02_example_literal.
